@@ -523,7 +523,7 @@ def _st_cli(draw):
     return case
 
 
-_S_KIND = st.sampled_from(['hand'] * 5 + ['family'] * 3 + ['cli'])
+_S_KIND = st.sampled_from(['hand'] * 5 + ['family'] * 3 + ['cli'] * 2)
 _ST_HAND, _ST_FAMILY, _ST_CLI = _st_hand(), _st_family(), _st_cli()
 
 
@@ -829,3 +829,72 @@ SUBCHECKS = [
              rule="thorough: 16 atheris (libFuzzer) campaigns x 320000 runs on parse_dimacs / from_dimacs_file, 8 from an empty corpus and 8 seeded with the texts of tests/test_dimacsparser.py, fresh corpus directory under out/fuzz/C06, dictionary of DIMACS tokens, max_len 160, the reference-interpretation oracle evaluated inside the fuzz target; both tiers: the test-suite texts themselves",
              required_labels=['accepted', 'rejected-syntax']),
 ]
+
+
+# ---------------------------------------------------------------------------
+# large formulas: size thresholds of buffers / block writers (added after a seeded change that only
+# misbehaved above 4096 clauses was missed by the small-formula writer check)
+
+THRESHOLDS = [4095, 4096, 4097, 8191, 8192, 8193, 10000, 16385, 32769, 65537]
+
+
+def run_writer_large(case):
+    from cnfgen import CNF
+    from checks.c18 import dimacs_problem
+    from checks.c17 import parse_dimacs
+    m, n, width = case['m'], case['n'], case['width']
+    F = CNF(description='large formula {} {}'.format(m, n))
+    F.update_variable_number(n)
+    clauses = []
+    x = case['salt']
+    for i in range(m):
+        c = []
+        for j in range(width if i % 7 else (i % 3)):       # every 7th clause is short (possibly empty)
+            x = (x * 1103515245 + 12345) & 0x7FFFFFFF
+            v = x % n + 1
+            c.append(v if (x >> 16) & 1 else -v)
+        clauses.append(c)
+        F.add_clause(c, check=False)
+    header, varnames = case['header'], case['varnames']
+    texts = {}
+    buf = io.StringIO()
+    F.to_file(buf, fileformat='dimacs', export_header=header, export_varnames=varnames)
+    texts['to_file(StringIO)'] = buf.getvalue()
+    if not header and not varnames:
+        texts['to_dimacs()'] = F.to_dimacs()
+    d = tempfile.mkdtemp(prefix='c06L_')
+    try:
+        path = os.path.join(d, 'big.cnf')
+        F.to_file(path, export_header=header, export_varnames=varnames)
+        with open(path, encoding='utf-8') as fh:
+            texts['to_file(filename)'] = fh.read()
+        for how, text in texts.items():
+            what = "{} of a formula with {} variables and {} clauses".format(how, n, m)
+            prob = dimacs_problem(text)
+            if prob is not None:
+                raise Violation("{}: not a well formed DIMACS document: {}".format(what, prob))
+            n2, m2, cls2, _ = parse_dimacs(text)
+            if n2 != n or m2 != m or cls2 != clauses:
+                bad = next((i for i, (a, b) in enumerate(zip(cls2, clauses)) if a != b), min(len(cls2), len(clauses)))
+                raise Violation("{}: the text holds {} variables / {} clauses, first difference at clause {}".format(what, n2, len(cls2), bad))
+        G = CNF.from_file(path)
+        if G.number_of_variables() != n or [list(c) for c in G] != clauses:
+            raise Violation("round trip through a file changes a formula with {} clauses".format(m))
+    finally:
+        shutil.rmtree(d, ignore_errors=True)
+    return Outcome(labels=['m>=4096' if m >= 4096 else 'm<4096', 'header' if header else 'noheader'], nontrivial=True)
+
+
+def enum_writer_large(tier):
+    ths = THRESHOLDS[:7] if tier == 'quick' else THRESHOLDS
+    i = 0
+    for m in ths:
+        for n, width in ((50, 3), (5000, 2)):
+            i += 1
+            yield {'m': m, 'n': n, 'width': width, 'salt': i, 'header': bool(i % 2), 'varnames': i % 4 == 0}
+
+
+SUBCHECKS.append(
+    SubCheck('writer_large', run_writer_large, enumerate_cases=enum_writer_large,
+             rule="formulas with m in {4095,4096,4097,8191,8192,8193,10000(,16385,32769,65537)} pseudo-random clauses (every 7th short or empty) over 50 or 5000 variables, written by to_file(StringIO), to_file(filename), to_dimacs(); oracle: strict reader accepts, counts and every clause in order equal, CNF.from_file returns the same formula; non-trivial: all",
+             required_labels=['m>=4096']))
